@@ -217,6 +217,8 @@ def check_batch(ctx, case):
                                 'history:key-failure-first' if case.get('dirty_first') else 'history:none',
                                 'imports:%s' % ('same' if ia == ib else 'different'), 'typed-equal:%d' % min(len(typed_equal), 3), 'batch:%d' % min(len(steps), 10)) +
              (('big-argument',) if any(x.get('big') for x in prog['steps']) else ()) +
+             (('body-mutates-arguments',) if any(x.get('mutate_args') is not None and (
+                 V.is_mutable(V.build(x['a'])) or V.is_mutable(V.build(x['b']))) for x in prog['steps']) else ()) +
              tuple(set('capture:' + prog['ins'][s['i']].get('capture', 'all') for s in prog['steps'])) +
              tuple(set('kind:' + prog['ins'][s['i']]['kind'] for s in prog['steps'])))
 
@@ -302,6 +304,11 @@ def batches(draw):
             y['name'] = 'n2' if x['name'] == 'n1' else 'n1'
             steps.append(y)
             dirty_first = draw(st.booleans())
+    # wrapped functions that change their (mutable) arguments in place: the key is the one of the call as it was made
+    if draw(st.sampled_from([False, False, True])):
+        for x in steps:
+            if x.get('share') is None and ins[x['i']]['kind'] != 'property' and draw(st.booleans()):
+                x['mutate_args'] = draw(st.integers(0, 11))
     prog = PS.assign_sids(dict(klass='instance', ins=ins, outs=[], steps=steps, ending='return', result=None,
                                extractor='none'))
     seeds = draw(st.tuples(st.sampled_from(HS.SEEDS), st.sampled_from(HS.SEEDS)))
